@@ -87,6 +87,14 @@ evm_now(void)
 	return the_loop.now;
 }
 
+void
+evm_set_now(double now)
+{
+	if (now > the_loop.now) {
+		the_loop.now = now;
+	}
+}
+
 unsigned long
 evm_iter(void)
 {
